@@ -21,7 +21,8 @@ ASSUMPTIONS = ['well-formed = the forms of DESIGN Appendix B (quotes glued to fi
 MIN_COUNTERS = {'files_parsed': 2000, 'attribute_comparisons': 2000, 'files_with_3_features': 500, 'bom_files': 5, 'big_candidate_counts': 1}
 ANCHOR_FILES = ['droop/profile.py']
 
-NICKS = ['a', 'bo', 'Cy', 'dd', 'e5', 'fox', 'g_', 'Hh', 'ii', 'jay', 'k9', 'el', 'em', 'en', 'oh', 'pe']
+NICKS = ['a', 'bo', 'Cy', 'dd', 'e5', 'fox', 'g_', 'Hh', 'ii', 'jay', 'k9', 'el', 'em', 'en', 'oh', 'pe',
+         '\u2461', '\u00b3', '\u2460\u2462', 'x\u00b2', '\u0663a', '\u2166']     # digit-like characters that are not decimal numbers are nicknames too
 
 
 def rich_structure(rng, big=False):
